@@ -373,11 +373,11 @@ pub fn run(tier: Tier, seed: u64) -> i32 {
     }
     let steps = tier.pick(10, 20);
     let mut plan: Vec<(Mode, usize, usize)> = Vec::new();
-    plan.push((Mode { name: "plain_par8".into(), hooked: false, pin: false, failpoints: None }, tier.pick(48, 240), 8));
-    plan.push((Mode { name: "plain_par32".into(), hooked: false, pin: false, failpoints: None }, tier.pick(64, 256), 32));
-    plan.push((Mode { name: "plain_pinned".into(), hooked: false, pin: true, failpoints: None }, tier.pick(16, 96), 8));
+    plan.push((Mode { name: "plain_par8".into(), hooked: false, pin: false, failpoints: None }, tier.pick(48, 720), 8));
+    plan.push((Mode { name: "plain_par32".into(), hooked: false, pin: false, failpoints: None }, tier.pick(64, 768), 32));
+    plan.push((Mode { name: "plain_pinned".into(), hooked: false, pin: true, failpoints: None }, tier.pick(16, 288), 8));
     for i in [0usize, 6, 5] {
-        plan.push((Mode { name: format!("hooked_fp{}", i), hooked: true, pin: false, failpoints: Some(FAILPOINT_SETS[i].to_string()) }, tier.pick(16, 64), 8));
+        plan.push((Mode { name: format!("hooked_fp{}", i), hooked: true, pin: false, failpoints: Some(FAILPOINT_SETS[i].to_string()) }, tier.pick(16, 192), 8));
     }
     let mut slow_all: Vec<SlowCase> = Vec::new();
     let mut sid_base = 0u64;
